@@ -30,6 +30,16 @@ Section Abstract.
     map (fun x => map Phiinv (rosen T dflt ds x)) (coordinates (contour_of T dflt mul Phi ds b units))
     = sphere_points (contour_of T dflt mul Phi ds b units).
   Proof. exact (contour_preimage T dflt okp). Qed.
+  (* IFORMContour evaluates column-wise (coordinates[:, i] for all points at once, given = a whole column); for every
+     model -- no hypothesis on conditional_on -- that is, row for row, the sequential chain the other theorems speak about *)
+  Theorem C01_iform_vectorised_is_chain : forall (ds : list (dist T)) (P : list (list T)),
+    Forall (fun r => length r = length ds) P ->
+    rows_of_cols T dflt (length P) (chain_cols T dflt ds (cols_of T dflt (length ds) P) []) = map (fun r => chain T dflt ds r []) P.
+  Proof. exact (chain_cols_is_chain T dflt). Qed.
+  Theorem C01_contour_vectorised : forall (mul : T -> T -> T) (Phi : T -> T) ds b units,
+    Forall (fun u => length u = length ds) units ->
+    contour_vec_of T dflt mul Phi ds b units = contour_of T dflt mul Phi ds b units.
+  Proof. exact (contour_vec_is_contour T dflt). Qed.
 End Abstract.
 
 (* ---------------------------------------------------------------- over the reals *)
@@ -132,6 +142,25 @@ Section Reals.
     beta c = Phiinv (1 - alpha) /\ length (coordinates c) = n /\
     Forall (fun x => length x = length ds /\ Rnorm (map Phiinv (Rrosen ds x)) = Rabs (beta c)) (coordinates c).
   Proof. exact (iform_full Phi Phiinv randn forces pot Phi_range Phiinv_Phi forces_shape). Qed.
+  (* IFORM exactly as evaluated by the code (column-wise; this is what the binary64 run executes) *)
+  Theorem C01_iform_vectorised_full : forall ds alpha n, wf R okp ds -> (length ds <> 2%nat -> randn_ok randn n (length ds)) ->
+    let c := Riform_vec_with Phi Phiinv (Rnsphere randn forces pot) ds alpha n in
+    beta c = Phiinv (1 - alpha) /\ length (coordinates c) = n /\
+    Forall (fun x => length x = length ds /\ Rnorm (map Phiinv (Rrosen ds x)) = Rabs (beta c)) (coordinates c).
+  Proof. exact (iform_vec_full Phi Phiinv randn forces pot Phi_range Phiinv_Phi forces_shape). Qed.
+  Theorem C01_iform_vectorised_R : forall nsph ds alpha n,
+    (length ds <> 2%nat -> Forall (fun u => length u = length ds) (nsph (length ds) n)) ->
+    Riform_vec_with Phi Phiinv nsph ds alpha n = Riform_with Phi Phiinv nsph ds alpha n.
+  Proof. exact (iform_vec_is_iform Phi Phiinv). Qed.
+
+  (* the NSphere returns the initial state or a visited state, and none of them has a smaller potential energy *)
+  Theorem C01_nsphere_best_state : forall dim n,
+    let x0 := init_points R 0 Rplus Rmult Rdiv sqrt (randn n dim) in
+    let its := seq 1 (max_iters n - 1) in
+    let res := Rnsphere randn forces pot dim n in
+    In res (x0 :: visited forces its x0) /\ Forall (fun s => pot res <= pot s) (x0 :: visited forces its x0).
+  Proof. exact (nsphere_best forces pot randn). Qed.
+
   Theorem C01_isorm_full : forall ds alpha n, wf R okp ds -> (length ds <> 2%nat -> randn_ok randn n (length ds)) ->
     let c := Risorm Phi chi2ppf randn forces pot ds alpha n in
     beta c = sqrt (chi2ppf (1 - alpha) (length ds)) /\ length (coordinates c) = n /\
@@ -149,6 +178,9 @@ Theorem C01_float_entry_points : forall ft ds alpha n,
   iformF ft ds alpha n =
     iform_with float nan 0%float 1%float two_piF PrimFloat.add PrimFloat.sub PrimFloat.mul PrimFloat.div FloatBits.of_nat
                (flook (ft_phi ft)) (flook (ft_phiinv ft)) (flook (ft_cos ft)) (flook (ft_sin ft)) (nsph_look (ft_nsph ft)) ds alpha n /\
+  iform_vecF ft ds alpha n =
+    iform_vec_with float nan 0%float 1%float two_piF PrimFloat.add PrimFloat.sub PrimFloat.mul PrimFloat.div FloatBits.of_nat
+               (flook (ft_phi ft)) (flook (ft_phiinv ft)) (flook (ft_cos ft)) (flook (ft_sin ft)) (nsph_look (ft_nsph ft)) ds alpha n /\
   isormF ft ds alpha n =
     isorm_with float nan 0%float 1%float two_piF PrimFloat.add PrimFloat.sub PrimFloat.mul PrimFloat.div PrimFloat.sqrt FloatBits.of_nat
                (flook (ft_phi ft)) (flook (ft_cos ft)) (flook (ft_sin ft)) (chi2look (ft_chi2 ft)) (nsph_look (ft_nsph ft)) ds alpha n /\
@@ -157,7 +189,7 @@ Theorem C01_float_entry_points : forall ft ds alpha n,
     nsphere float 0%float 3%float PrimFloat.add PrimFloat.sub PrimFloat.mul PrimFloat.div PrimFloat.sqrt PrimFloat.ltb FloatBits.of_nat
             (fun n' d' => if (Nat.eqb n' m && Nat.eqb d' dim)%bool then rand else [])
             (fun st => fst (slook ([], nan) tab st)) (fun st => snd (slook ([], nan) tab st)) dim m).
-Proof. exact (fun ft ds alpha n => conj eq_refl (conj eq_refl (conj (fun x => eq_refl) (fun rand tab dim m => eq_refl)))). Qed.
+Proof. exact (fun ft ds alpha n => conj eq_refl (conj eq_refl (conj eq_refl (conj (fun x => eq_refl) (fun rand tab dim m => eq_refl))))). Qed.
 
 (* non-vacuity: concrete engines meeting every contract (Phi = 1/2 + atan/pi), a 4-variable model with the
    admissible structure [None, 0, 1, 0] whose templates are inverse pairs at every parameter vector, forces of the
@@ -204,4 +236,9 @@ Print Assumptions C01_isorm_full.
 Print Assumptions C01_calculate_alpha.
 Print Assumptions C01_float_entry_points.
 Print Assumptions C01_calculate_alpha_generated.
+Print Assumptions C01_iform_vectorised_is_chain.
+Print Assumptions C01_contour_vectorised.
+Print Assumptions C01_iform_vectorised_full.
+Print Assumptions C01_iform_vectorised_R.
+Print Assumptions C01_nsphere_best_state.
 Print Assumptions C01_calculate_alpha_generated_binary64.
